@@ -764,8 +764,86 @@ def read_hook_stream(ctx, res):
         res.violate("C16:override", "supplied options are not applied one by one through normal validation (each validated once, against the configuration as the earlier options left it)",
                     {"stream": "read-hook", "got": repr(got), "validator_calls": repr(calls)})
 
+def offered_options_and_ignored_names_stream(ctx, res):
+    """(a) the parser generated for a schema offers options for its stored scalar fields and for nothing else: the computed
+    `is_<mode>_mode` helpers an `ApplicationModeField` adds (and a plain virtual field next to them) get no switch, and a command
+    line built from every offered option can be applied; (b) `cmdline_args_override(..., ignore=[names])` skips exactly the NAMED
+    destinations: a destination that merely begins with an ignored name (`config` / `config_dir`, `port` / `port_range`,
+    `db.port` / `db.port_timeout`, a section name as prefix of a sibling) is applied"""
+    import argparse
+    import cincoconfig as cc
+    # (a)
+    s = cc.Schema()
+    s.name = cc.StringField(default="svc")
+    s.debug = cc.BoolField(default=False)
+    s.app.mode = cc.ApplicationModeField(modes=["development", "production", "qa"], default="production")
+    s.app.workers = cc.IntField(default=2)
+    s.app.load = cc.VirtualField(lambda c: c.workers * 2)
+    s.stage = cc.ApplicationModeField(modes=["dev", "live"], default="dev")
+    for target_label, target in (("schema", s), ("configuration", s())):
+        case = {"stream": "offered-options", "parser_from": target_label}
+        res.case(stable(case), kind="offered-options")
+        try:
+            parser = cc.generate_argparse_parser(target)
+        except BaseException as e:  # noqa
+            res.violate("C16:parser-options", "generating the parser raised %s" % type(e).__name__, dict(case, error=str(e)[:80]))
+            continue
+        dests = sorted(a.dest for a in parser._actions if a.dest != "help")
+        want = sorted(["name", "debug", "app.mode", "app.workers", "stage"])
+        if sorted(set(dests)) != want:
+            res.violate("C16:parser-options", "the generated parser does not offer exactly the stored scalar fields (a computed helper field got a switch, or a field is missing)",
+                        dict(case, offered=sorted(set(dests)), expected=want))
+        argv = []
+        for a in parser._actions:
+            if a.dest == "help" or not a.option_strings:
+                continue
+            opt = a.option_strings[0]
+            if opt.startswith("--no-"):
+                continue
+            if a.nargs == 0:
+                argv.append(opt)
+            else:
+                argv += [opt, {"name": "n2", "app.mode": "qa", "app.workers": "4", "stage": "live"}.get(a.dest, "1")]
+        cfg = s()
+        try:
+            cc.cmdline_args_override(cfg, parser.parse_args(argv))
+            got = (cfg.name, cfg.debug, cfg.app.mode, cfg.app.workers, cfg.stage)
+        except BaseException as e:  # noqa
+            got = "raised %s: %s" % (type(e).__name__, str(e)[:60])
+        if got != ("n2", True, "qa", 4, "live"):
+            res.violate("C16:parser-options", "a command line built from every option the generated parser offers could not be applied", dict(case, argv=argv, got=repr(got)))
+    # (b)
+    t = cc.Schema()
+    t.config = cc.StringField(default="app.json")
+    t.config_dir = cc.StringField(default="/etc/svc")
+    t.port = cc.IntField(default=80)
+    t.port_range = cc.StringField(default="8000-8100")
+    t.db.port = cc.IntField(default=5432)
+    t.db.port_timeout = cc.IntField(default=30)
+    t.db.host = cc.StringField(default="h")
+    t.dbx.host = cc.StringField(default="x")
+    for ignore, ns, want in ((["config"], {"config": "other.json", "config_dir": "/srv/etc"}, {"config": "app.json", "config_dir": "/srv/etc"}),
+                             ("config", {"config": "other.json", "config_dir": "/srv/etc"}, {"config": "app.json", "config_dir": "/srv/etc"}),
+                             (["port"], {"port": 81, "port_range": "1-2"}, {"port": 80, "port_range": "1-2"}),
+                             (["db.port"], {"db.port": 1, "db.port_timeout": 9}, {"db.port": 5432, "db.port_timeout": 9}),
+                             (["db"], {"db.host": "new", "dbx.host": "newx"}, {"db.host": "new", "dbx.host": "newx"}),
+                             (["db.host", "port"], {"db.host": "new", "dbx.host": "newx", "port": 1, "port_range": "3-4"}, {"db.host": "h", "dbx.host": "newx", "port": 80, "port_range": "3-4"}),
+                             ([], {"config": "c", "port": 2}, {"config": "c", "port": 2})):
+        cfg = t()
+        case = {"stream": "ignored-names", "ignore": ignore, "given": ns}
+        res.case(stable(case), kind="ignored-names")
+        try:
+            cc.cmdline_args_override(cfg, argparse.Namespace(**ns), ignore=ignore)
+            got = {k: cfg[k] for k in want}
+        except BaseException as e:  # noqa
+            got = "raised %s" % type(e).__name__
+        if got != want:
+            res.violate("C16:override-ignore", "an override with ignored names did not apply exactly the supplied destinations that are not NAMED in the ignore list",
+                        dict(case, got=got, want=want))
+
 def run(ctx, n_quick=200, n_thorough=6000):
     res = Result()
+    guard(res, "C16", offered_options_and_ignored_names_stream, ctx, res)
     guard(res, "C16", read_hook_stream, ctx, res)
     guard(res, "C16", membership_and_helpers_stream, ctx, res)
     guard(res, "C16", parser_from_configuration_stream, ctx, res)
